@@ -83,3 +83,51 @@ func VerifC03_DeadCode() {
 	verifrt.Assert(outcome == vOutReturn && len(resC) == 1 && resC[0].lo == want, "compiler front end: unreachable code does not change the result")
 	verifrt.Cover("ran")
 }
+
+// VerifC03_ReservedIndexEncodings: the reserved memory-index bytes of memory.size / memory.grow / memory.fill / memory.copy
+// written canonically (00) or as an over-long LEB128 zero (80 00, 80 80 00), in every combination: whatever the validator
+// decides, an ACCEPTED module is decoded by both engines exactly as it was validated - the interpreter and the compiler
+// front end run it and return the specified value (42). (Validator and engines must agree on how many bytes an
+// immediate occupies.)
+//verif:opts split=op:4
+func VerifC03_ReservedIndexEncodings() {
+	encs := [][]byte{{0x00}, {0x80, 0x00}, {0x80, 0x80, 0x00}}
+	e1 := encs[verifrt.Choose("enc1", 3)]
+	var body []byte
+	switch verifrt.Choose("op", 4) {
+	case 0: // memory.size ; drop
+		body = cat([]byte{0x3f}, e1, []byte{0x1a})
+	case 1: // memory.grow(0) ; drop
+		body = cat(i32const(0), []byte{0x40}, e1, []byte{0x1a})
+	case 2: // memory.fill(0, 0, 0)
+		body = cat(i32const(0), i32const(0), i32const(0), []byte{0xfc, 0x0b}, e1)
+	case 3: // memory.copy(0, 0, 0)
+		e2 := encs[verifrt.Choose("enc2", 3)]
+		body = cat(i32const(0), i32const(0), i32const(0), []byte{0xfc, 0x0a}, e1, e2)
+	}
+	body = cat(body, i32const(42))
+	spec := &interpreter.VerifModuleSpec{HasMem: true, MemMin: 1, MemMax: 2,
+		Funcs: []interpreter.VerifFuncSpec{{Params: []byte{i32}, Results: []byte{i32}, Body: body, Export: "f"}}}
+	bin := interpreter.VerifEncode(spec)
+	resI, trapI, _, _, ok := interpreter.VerifInterpRun(bin, "f", nil, 2, []uint64{0})
+	if !ok {
+		verifrt.Cover("rejected")
+		return
+	}
+	verifrt.Assert(trapI == interpreter.VTrapNone && len(resI) == 1 && resI[0] == 42, "interpreter: an accepted module runs as it was validated")
+	w, err := vCompile(bin, false, false)
+	verifrt.Assert(err == nil, "a module the validator accepts is accepted by the compiler front end")
+	if err != nil {
+		return
+	}
+	w.mem = make([]byte, 65536)
+	w.memMax = 2
+	resC, outcome := w.call(0, []vVal{{lo: 0}})
+	if outcome == vOutUnsupported || w.unsupp != "" {
+		verifrt.Note("unsupported: " + w.unsupp)
+		verifrt.Assert(false, "the reference evaluator models every SSA construct of this program family")
+		return
+	}
+	verifrt.Assert(outcome == vOutReturn && len(resC) == 1 && resC[0].lo == 42, "compiler front end: an accepted module runs as it was validated")
+	verifrt.Cover("accepted")
+}
